@@ -323,7 +323,10 @@ def _flag_protocol(ci, run, wait_call, cond, cls_of):
     if cond not in with_attrs(par):
         return None, 'flag tested outside the condition lock'
     blk = par._parent.body
-    i = [j for j, s in enumerate(blk) if s is par][0]
+    idx_ = [j for j, s in enumerate(blk) if s is par]
+    if not idx_:
+        return None, 'the wait is not a direct statement of the block that tests the flag (the flag is not tested on every path to the wait)'
+    i = idx_[0]
     cleared = any(isinstance(s, ast.Assign) and U.is_self_attr(s.targets[0], flag) and isinstance(s.value, ast.Constant)
                   and s.value.value is False for s in blk[i + 1:])
     if not cleared:
